@@ -5,7 +5,7 @@ from __future__ import annotations
 import ast
 
 from rules import fwd as R_fwd
-from sa.astutil import call_name, guards_of, parent_map, u
+from sa.astutil import call_name, guards_of, kwarg, parent_map, u
 from sa.defuse import ReachingDefs
 from sa.model import AnalysisError, own_calls, own_nodes
 from sa.norm import Normalizer, padd, pstr
@@ -86,6 +86,20 @@ def run(ctx: Ctx):
     LAY = f"{xp}.transpose(0, self.dim).unsqueeze(-1).flatten(1)"
     terms = {s: inl_a.text(updates[s][0][0].value) for s in STATS if updates.get(s)}
     layout = LAY if all(LAY in t for t in terms.values()) else None
+    # the accumulators are allocated in double precision, all three alike: a single-precision sum of squares loses the variance of data
+    # whose offset is large against its spread (sumsq / count - mean^2 cancels), whatever the partition
+    allocs = {}
+    for n in own_nodes(acc.node):
+        if isinstance(n, ast.Assign) and isinstance(n.value, ast.Call) and call_name(n.value) in ("torch.zeros", "torch.zeros_like", "torch.empty", "torch.full"):
+            for t_ in n.targets:
+                if isinstance(t_, ast.Attribute) and u(t_.value) == "self" and t_.attr in STATS:
+                    dt = kwarg(n.value, "dtype")
+                    allocs[t_.attr] = u(dt) if dt is not None else None
+    col.floor("statistic_allocations", len(allocs), 3)
+    col.ob("G28", "S1", f"{W('accumulate')}::statistics-accumulate-in-double-precision", all(v in ("torch.double", "torch.float64") for v in allocs.values()),
+           f"the accumulators are allocated as {allocs}: each of count / sum / sumsq must be double precision (an accumulator left at the default "
+           f"single precision silently rounds every batch's contribution, and the variance sumsq / count - mean^2 cancels catastrophically for "
+           f"data with a large offset)", rel, acc.line, sample=allocs)
     mvn_decided = _mvn_table(ctx)  # (by value; the spelling rules below decide only when the code is outside the interpreted fragment)
     col.ob("G12", "S1", f"{W('accumulate')}::terms", mvn_decided or terms == {"count": f"{LAY}.shape[1]", "sum": f"{LAY}.sum(1)", "sumsq": f"{LAY}.square().sum(1)"},
            f"the accumulated terms are {terms} over the layout `{layout}`; expected the number of frames, the sum and the "
